@@ -332,4 +332,96 @@ theorem ladder_spec (base : Nat) (hb : base = 2 ∨ base = 8 ∨ base = 10 ∨ b
           simp [litType, candidates, IntType.represents, IntType.isSigned, IntType.bits, Suffix.hasL, Suffix.hasU,
             h31, h32, h63, hv, n32, n63] at h ⊢ <;> subst h <;> rfl
 
+-- ------------------------------------------------------------------ identifier ranges (Annex D)
+-- Both sides are unions of closed ranges, hence constant between consecutive range endpoints:
+-- comparing them at every endpoint (kernel evaluation) decides them for every `c : Nat`.
+
+/-- greatest element of `es` that is `≤ c`, or `m` -/
+def floorFrom (c : Nat) : Nat → List Nat → Nat
+  | m, [] => m
+  | m, e :: es => floorFrom c (if e ≤ c ∧ m ≤ e then e else m) es
+
+theorem floorFrom_spec (c : Nat) : ∀ (es : List Nat) (m : Nat), m ≤ c →
+    floorFrom c m es ≤ c ∧ m ≤ floorFrom c m es ∧ (∀ e ∈ es, e ≤ c → e ≤ floorFrom c m es) ∧
+    (floorFrom c m es = m ∨ floorFrom c m es ∈ es) := by
+  intro es
+  induction es with
+  | nil => intro m hm; simp [floorFrom, hm]
+  | cons e es ih =>
+    intro m hm
+    by_cases h : e ≤ c ∧ m ≤ e
+    · have := ih e h.1
+      simp only [floorFrom, h, and_self, if_true]
+      refine ⟨this.1, by omega, ?_, ?_⟩
+      · intro x hx hxc
+        rcases List.mem_cons.mp hx with rfl | hx
+        · exact this.2.1
+        · exact this.2.2.1 x hx hxc
+      · rcases this.2.2.2 with h1 | h1
+        · right; rw [h1]; exact List.mem_cons_self
+        · right; exact List.mem_cons_of_mem _ h1
+    · have := ih m hm
+      simp only [floorFrom, h, if_false]
+      refine ⟨this.1, this.2.1, ?_, ?_⟩
+      · intro x hx hxc
+        rcases List.mem_cons.mp hx with rfl | hx
+        · have := this.2.1; omega
+        · exact this.2.2.1 x hx hxc
+      · rcases this.2.2.2 with h1 | h1
+        · left; exact h1
+        · right; exact List.mem_cons_of_mem _ h1
+
+def anyIn (t : List (Nat × Nat)) (c : Nat) : Bool := t.any (fun r => decide (r.1 ≤ c) && decide (c ≤ r.2))
+
+theorem anyIn_floor (es : List Nat) (c : Nat) : ∀ (t : List (Nat × Nat)), (∀ r ∈ t, r.1 ∈ es ∧ r.2 + 1 ∈ es) →
+    anyIn t c = anyIn t (floorFrom c 0 es) := by
+  have sp := floorFrom_spec c es 0 (Nat.zero_le _)
+  intro t
+  induction t with
+  | nil => intro _; rfl
+  | cons r t ih =>
+    intro h
+    have hr := h r List.mem_cons_self
+    have ih' := ih (fun x hx => h x (List.mem_cons_of_mem _ hx))
+    have e1 : decide (r.1 ≤ c) = decide (r.1 ≤ floorFrom c 0 es) := by
+      have := sp.2.2.1 r.1 hr.1
+      apply decide_eq_decide.mpr; constructor <;> intro _ <;> omega
+    have e2 : decide (c ≤ r.2) = decide (floorFrom c 0 es ≤ r.2) := by
+      have := sp.2.2.1 (r.2 + 1) hr.2
+      apply decide_eq_decide.mpr; constructor <;> intro _ <;> omega
+    simp only [anyIn, List.any_cons] at ih' ⊢
+    rw [e1, e2, ih']
+
+def endpointsOf (t : List (Nat × Nat)) : List Nat := t.flatMap (fun r => [r.1, r.2 + 1])
+
+def allEndpoints : List Nat :=
+  endpointsOf (ident1Ranges ++ ident2Ranges ++ annexD1 ++ annexD2 ++ basicNondigit ++ [(0x30, 0x39)])
+
+theorem ident_at_endpoints : ∀ a ∈ 0 :: allEndpoints, isIdent1 a = identStart a ∧ isIdent2 a = identContinue a := by
+  decide +kernel
+
+theorem tables_in_endpoints :
+    ∀ t ∈ [ident1Ranges, ident2Ranges, annexD1, annexD2, basicNondigit, [(0x30, 0x39)]],
+      ∀ r ∈ t, r.1 ∈ allEndpoints ∧ r.2 + 1 ∈ allEndpoints := by
+  decide +kernel
+
+theorem ident_ranges (c : Nat) : isIdent1 c = identStart c ∧ isIdent2 c = identContinue c := by
+  have sp := floorFrom_spec c allEndpoints 0 (Nat.zero_le _)
+  have hmem : floorFrom c 0 allEndpoints ∈ 0 :: allEndpoints := by
+    rcases sp.2.2.2 with h | h
+    · rw [h]; exact List.mem_cons_self
+    · exact List.mem_cons_of_mem _ h
+  have key := ident_at_endpoints _ hmem
+  have f := fun t ht => anyIn_floor allEndpoints c t (tables_in_endpoints t ht)
+  have f1 := f ident1Ranges (by simp)
+  have f2 := f ident2Ranges (by simp)
+  have f3 := f annexD1 (by simp)
+  have f4 := f annexD2 (by simp)
+  have f5 := f basicNondigit (by simp)
+  have f6 := f [(0x30, 0x39)] (by simp)
+  simp only [isIdent1, isIdent2, identStart, identContinue, isBasicNondigit, isDigit, inRange, inRanges] at key ⊢
+  simp only [anyIn] at f1 f2 f3 f4 f5 f6
+  rw [f1, f2, f3, f4, f5, f6]
+  exact key
+
 end ChibiVerif.Lemmas.Literals
